@@ -15,7 +15,42 @@ var ruleTermT1 = &Rule{
 	Run:     runTermT1,
 }
 
+// touchesTypeMap: the function reads the by-name annotation type tables.
+func touchesTypeMap(f *ssa.Function) bool {
+	for _, b := range f.Blocks {
+		for _, ins := range b.Instrs {
+			if fa, ok := ins.(*ssa.FieldAddr); ok {
+				n := fieldName(fa.X.Type(), fa.Field)
+				if n == "createTypeMap" || n == "CreateTypeMap" || n == "ParentNameList" {
+					return true
+				}
+			}
+		}
+	}
+	return false
+}
+
+var ruleTermT1Types = &Rule{
+	Name:    "TERM/T1-recursion-certificate",
+	NeedSSA: true,
+	Text:    ruleTermT1.Text + " — restricted to the call-graph cycles that follow annotation type NAMES (class parents, alias targets: functions reading createTypeMap / CreateTypeMap / ParentNameList), i.e. the clause 'cyclic inheritance or alias chains neither hang nor crash'",
+	Run: func(c *Ctx) []Ob {
+		return runTermT1Filtered(c, func(s []*ssa.Function) bool {
+			for _, f := range s {
+				if touchesTypeMap(f) {
+					return true
+				}
+			}
+			return false
+		}, 6)
+	},
+}
+
 func runTermT1(c *Ctx) []Ob {
+	return runTermT1Filtered(c, nil, 40)
+}
+
+func runTermT1Filtered(c *Ctx, keep func([]*ssa.Function) bool, minSCC int) []Ob {
 	var obs []Ob
 	edges := c.modEdges(c.VTA())
 	sccs, _ := c.recursiveSCCs(edges)
@@ -23,7 +58,12 @@ func runTermT1(c *Ctx) []Ob {
 	ge := newGuardEngine(c)
 	dbg := os.Getenv("LH_DEBUG") != ""
 	nCert := 0
+	nKept := 0
 	for _, s := range sccs {
+		if keep != nil && !keep(s) {
+			continue
+		}
+		nKept++
 		key := "TERM/T1:scc:" + sccName(s)
 		if isLexerSCC(s) {
 			nCert++
@@ -69,7 +109,7 @@ func runTermT1(c *Ctx) []Ob {
 	c.Stats["recursive_sccs"] = len(sccs)
 	c.Stats["recursive_sccs_certified"] = nCert
 	c.Stats["must_advance_functions"] = len(ma)
-	obs = append(obs, floor("TERM/T1-recursion-certificate", "recursive SCCs", len(sccs), 40))
+	obs = append(obs, floor("TERM/T1-recursion-certificate", "recursive SCCs examined", nKept, minSCC))
 	obs = append(obs, floor("TERM/T1-recursion-certificate", "must-advance functions (both parsers)", len(ma), 35))
 	return obs
 }
